@@ -86,7 +86,7 @@ def wide(c):
             continue
         ev = json.loads(open(trace).read().splitlines()[at - 1])
         if ev.get("op") == "ManyPatterns":
-            c.report_failure("kv: ListKeys answered wrongly after one storage had served hundreds of distinct patterns (%s)" % variant,
+            c.report_failure("kv: ListKeys answered wrongly after one storage had served hundreds of distinct patterns (%s%s)" % (variant, ", SCAN answered a few keys at a time" if variant == "redis" else ""),
                              {"rejected_at_line": at, "event": ev})
             continue
         bad = [s for s in ev.get("slots", []) if s[0] != s[1] or (s[0] == 1 and s[2] != s[3])][:5]
